@@ -30,7 +30,7 @@ pub fn steps_for(seed: u64, prof: &Profile) -> usize {
 }
 
 pub fn run_one(prop: &str, seed: u64, fault: Option<Fault>) -> Outcome {
-    let prof = Profile::for_prop(prop);
+    let prof = Profile::for_case(prop, seed);
     let steps = steps_for(seed, &prof);
     let mut slot: Option<Sim> = None;
     let res = catch_unwind(AssertUnwindSafe(|| {
